@@ -1051,7 +1051,7 @@ Fixpoint comp_prod2 (st : state) (lenv : loc) (x1 x2 : str) (items1 : list value
         let '(st3, r) := comp_loop st2 lenv x2 items2 v cond acc in
         match r with
         | inr bad => (st3, inr bad)
-        | inl acc' => comp_prod2 st3 lenv x1 x2 t c2 w2 v cond acc'
+        | inl acc' => comp_prod2 (env_remove st3 lenv x2) lenv x1 x2 t c2 w2 v cond acc'   (* the inner variable is gone when c2 is evaluated again *)
         end
       end
     end
